@@ -78,9 +78,13 @@ DOCS = [
     # 15 a stream over non-null items whose second item fails as a whole (its non-null field is null, possibly asynchronously)
     """query ($d0: Boolean = true, $d1: Boolean = true, $d2: Boolean = true, $d3: Boolean = true) {
       hero { name crew @stream(initialCount: 1, label: "S", if: $d0) { name nn slow } } }""",
+    # 16 no incremental delivery: a synchronously raising non-null field next to a pending awaitable sibling, at two nested levels
+    #    (the work abandoned at the outer level abandons more work while it settles)
+    """query ($d0: Boolean = true, $d1: Boolean = true, $d2: Boolean = true, $d3: Boolean = true) {
+      heroes { slow name bad } n strict { slow2 bad } }""",
 ]
 PARSED = [parse(d) for d in DOCS]
-N_DIRECTIVES = [4, 3, 3, 3, 3, 3, 2, 2, 3, 1, 1, 1, 1, 3, 2, 1]
+N_DIRECTIVES = [4, 3, 3, 3, 3, 3, 2, 2, 3, 1, 1, 1, 1, 3, 2, 1, 0]
 
 ASYNCABLE = ["Hero.slow", "Hero.slow2", "Hero.name", "Query.heroes", "Hero.best", "Hero.nn", "Query.n", "Hero.bad"]
 
